@@ -34,7 +34,7 @@ theorem C10_wrap_in_function_same_behaviour (cc : CharClass) (src1 src2 : Text) 
     (hp1 : parse cc src1 = .ok p) (hp2 : parse cc src2 = .ok (Wrap.wrap p)) (hs : Sim.SB false p) (hl : Wrap.LastExpr p)
     (hc1 : compileProgram p = .ok (r1, b1)) (hc2 : compileProgram (Wrap.wrap p) = .ok (r2, b2))
     (F : Nat) (t : Tree) (out : List Text) (h1 : specText cc F src1 = .value t out) :
-    (∃ n o, ∀ k, evalText cc (n + k) src1 = .error .index o) ∨ (∃ n o, ∀ k, evalText cc (n + k) src2 = .error .index o) ∨
+    TextHitsLimit cc src1 ∨ TextHitsLimit cc src2 ∨
     ∃ n, ∀ k, evalText cc (n + k) src1 = evalText cc (n + k) src2 :=
   Wrap.wrap_same_behaviour cc src1 src2 p r1 r2 b1 b2 hp1 hp2 hs hl hc1 hc2 F t out h1
 
